@@ -1,8 +1,9 @@
 #!/bin/bash
 # Re-runs every seeded change under /verif/seeded against the current checks (quick tier) and reports the ones
-# that are no longer detected.  usage: tools/seed_regress.sh [parallelism]
+# that are no longer detected (a file seeded/<id>/check_with names the check to run when the change is the subject of
+# another property's check, e.g. C07_9: a stale misfit after a tempering exchange, which is C12's clause).  usage: tools/seed_regress.sh [parallelism]
 P=${1:-5}
 cd /verif
-for suffix in ${SUFFIXES:-"" "_2" "_3" "_4" "_5" "_6" "_7" "_8"}; do
-  ls -d seeded/C??$suffix 2>/dev/null | xargs -P $P -I{} bash -c 'd={}; id=$(basename $d); pid=${id:0:3}; out=$(tools/seedtest.sh $pid $d/patch.diff 2>&1); cp .work/seedtest_$pid.log .work/seedtest_$id.final.log; if grep -q "^VIOLATION" .work/seedtest_$id.final.log; then echo "$id detected"; else echo "$id NOT DETECTED"; fi'
+for suffix in ${SUFFIXES:-"" "_2" "_3" "_4" "_5" "_6" "_7" "_8" "_9"}; do
+  ls -d seeded/C??$suffix 2>/dev/null | xargs -P $P -I{} bash -c 'd={}; id=$(basename $d); pid=${id:0:3}; if [ -f $d/check_with ]; then pid=$(cat $d/check_with); fi; out=$(tools/seedtest.sh $pid $d/patch.diff 2>&1); cp .work/seedtest_$pid.log .work/seedtest_$id.final.log; if grep -q "^VIOLATION" .work/seedtest_$id.final.log; then echo "$id detected"; else echo "$id NOT DETECTED"; fi'
 done | sort
